@@ -365,4 +365,24 @@ theorem Str.lines_located {n : Nat} : ∀ {m : Mode} {ts : List Tok}, Str n m ts
       · subst he; cases hx
       · exact Str.lines_located hs x hx hty
 
+/-- an admissible stream ends with its only EOF / ERROR token -/
+theorem Str.ends {n : Nat} : ∀ {m : Mode} {ts : List Tok}, Str n m ts →
+    ∃ pre last, ts = pre ++ [last] ∧ (last.ty = .eof ∨ last.ty = .error) ∧
+      ∀ t ∈ pre, t.ty ≠ .eof ∧ t.ty ≠ .error
+  | _, [], h => h.elim
+  | m, t :: ts, h => by
+    rcases h with ⟨he, hf⟩ | ⟨_, _, m', hm, hs⟩
+    · subst he
+      refine ⟨[], t, rfl, ?_, by simp⟩
+      rcases hf with ⟨_, h, _⟩ | ⟨_, h, _⟩
+      · exact Or.inl h
+      · exact Or.inr h
+    · obtain ⟨pre, last, rfl, hl, hp⟩ := Str.ends hs
+      refine ⟨t :: pre, last, rfl, hl, ?_⟩
+      intro x hx
+      simp only [List.mem_cons] at hx
+      rcases hx with rfl | hx
+      · constructor <;> intro hh <;> rw [hh] at hm <;> cases m <;> simp [trans] at hm
+      · exact hp x hx
+
 end Spok
